@@ -111,7 +111,7 @@ def shard(ctx):
         if isinstance(doc, dict) and t % 3 == 0:
             # characters that are markup in XML / need escaping in JSON and YAML: they travel into failure texts of every renderer
             doc = dict(doc)
-            doc[rng.choice(["a", "b", "k"])] = rng.choice(["R&D <platform>", "a<b", "x]]>y", "q\"uo'te", "tab\there", "amp&amp;", "<!-- c -->", "back\\slash", "é<ü>"])
+            doc[rng.choice(["a", "b", "k"])] = rng.choice(["R&D <platform>", "a<b", "x]]>y", "q\"uo'te", "tab\there", "amp&amp;", "<!-- c -->", "back\\slash", "é<ü>", "ctl\u0001x\u001b[0m", "bell\u0007x"])     # no U+0000: the FFI entry point takes C strings
         docs = json.dumps(doc)
         f = gen.gen_file(rng, doc, o)
         if t % 3 == 0:
